@@ -57,6 +57,7 @@ type FuncContract struct {
 	LoopDec  map[int]*Clause
 	LoopMod  map[int][]Expr
 	LoopAssume map[int][]*Clause
+	Decreases *Clause
 	Assumes  []*Clause
 	Opts     map[string]string
 	Line     int
@@ -240,6 +241,12 @@ func parseContractFile(path, pkgPath string, cs *Contracts) error {
 			case "opt":
 				k, v := splitWord(rest)
 				cur.Opts[k] = strings.TrimSpace(v)
+			case "decreases":
+				cl, err := mkClause("decreases", rest)
+				if err != nil {
+					return err
+				}
+				cur.Decreases = cl
 			case "requires", "ensures", "panics", "assume":
 				cl, err := mkClause(word, rest)
 				if err != nil {
